@@ -111,6 +111,11 @@ def make_record_pair(psk, psk2=None, relay=False):
     return (rl, tl), (rf, tf)
 
 
+def typed(records):
+    """records are namedtuples: Ping(x) == Pong(x) == (x,), so compare them together with their types"""
+    return [(type(r_).__name__, r_) for r_ in records]
+
+
 def gen_records(rng, n):
     recs = []
     for _ in range(n):
@@ -120,7 +125,9 @@ def gen_records(rng, n):
         elif t == "ping":
             recs.append(Ping(rng.randbytes(4)))
         elif t == "pong":
-            recs.append(Pong(rng.randbytes(4)))
+            # usually the answer to a ping seen before: the same 4 bytes under the other record type
+            earlier = [r_.ping_id for r_ in recs if isinstance(r_, Ping)]
+            recs.append(Pong(rng.choice(earlier) if earlier and rng.random() < 0.7 else rng.randbytes(4)))
         elif t == "open":
             recs.append(Open(rng.choice(NUMS), rng.choice(NUMS), rng.choice(SUBPROTOS)))
         elif t == "close":
@@ -237,8 +244,8 @@ def run_codec(spec):
                              "witness": {"spec": spec, "records": [type(r).__name__ for r in recs], "sizes": [len(getattr(r, "data", b"")) for r in recs]}})
                 break
             total += len(got)
-            if got != recs:
-                i = next((j for j in range(min(len(got), len(recs))) if got[j] != recs[j]), min(len(got), len(recs)))
+            if typed(got) != typed(recs):
+                i = next((j for j in range(min(len(got), len(recs))) if typed([got[j]]) != typed([recs[j]])), min(len(got), len(recs)))
                 viol.append({"key": "C12/codec/records-differ", "msg": "%s frag=%s: record #%d: sent %s got %s (sent %d, got %d)" % (
                     name, frag, i, _short(recs[i]) if i < len(recs) else None, _short(got[i]) if i < len(got) else None, len(recs), len(got)),
                     "witness": {"spec": spec}})
@@ -576,8 +583,8 @@ def run_mitm(spec):
                 if not got:
                     continue
                 pairs_checked += 1
-                if got != sent[:len(got)]:
-                    i = next((k for k in range(len(got)) if k >= len(sent) or got[k] != sent[k]), 0)
+                if typed(got) != typed(sent[:len(got)]):
+                    i = next((k for k in range(len(got)) if k >= len(sent) or typed([got[k]]) != typed([sent[k]])), 0)
                     viol.append({"key": "C12/mitm/manager-got-records-differ-from-sent",
                                  "msg": "record #%d the manager got from a connection is %s, the peer handed %s to it" % (
                                      i, _short(got[i]), _short(sent[i]) if i < len(sent) else "nothing"),
